@@ -431,6 +431,15 @@ def task_layout_generated(task):
                      "accepted", list(rb)[:4], "layout")
             continue
         ob = evaluate(([prelude] if prelude else []) + [base])
+        if origin == "generated program":
+            # the parser's tree is the tree the text was printed from (statements lost, duplicated or
+            # re-attached elsewhere survive a print/parse round trip of the parser's own tree)
+            want = E.strip(pr)
+            if not E.tree_eq(rb[1], want):
+                acc.viol("layout|generated program parses to another tree|%s" % _diff_sig(rb[1], want),
+                         {"sub": "gen-tree", "src": base, "origin": origin, "tree": want}, {"parses_to": "the generated tree"},
+                         {"difference": E.first_diff(rb[1], want)}, "layout")
+                continue
         roundtrip(acc, base, origin, rb)
         acc.cls("round: " + origin)
         for j in range(3):
@@ -1059,6 +1068,12 @@ def replay(rec):
         pre = [case["prelude"]] if case.get("prelude") else []
         ob, ov = evaluate(pre + [case["base"]]), evaluate(pre + [case["variant"]])
         return {"fails": ob != ov and not has_timeout(ob) and not has_timeout(ov), "expected": ob[-1], "actual": ov[-1]}
+    if sub == "gen-tree":
+        r = parse(case["src"])
+        if r[0] != "ok":
+            return {"fails": True, "expected": "accepted", "actual": list(r)[:4]}
+        same = E.tree_eq(r[1], case["tree"])
+        return {"fails": not same, "expected": {"parses_to": "the generated tree"}, "actual": "same tree" if same else {"difference": E.first_diff(r[1], case["tree"])}}
     if sub == "parse-ok":
         r = parse(case["src"])
         return {"fails": r[0] != "ok", "expected": "accepted", "actual": list(r)[:4] if r[0] != "ok" else "accepted"}
